@@ -18,9 +18,14 @@ package jsonparser
 //@     updateafter idparsed = idparsed + ((arg2 == 31) ? 0 : 1)
 //@   onstore ID
 //@     requires idparsed == 1 && *value == idres [C09.dec.id.full.uint64.range]
+//@   loop 0 invariant i >= 0 && i <= len(data) && (forall k int :: 0 <= k && k < i ==> data[k] != 44)
 //@   loop 4 invariant k >= start && k < end && end < len(data) && start >= 0
 //@   ensures err == nil && header.ID != nil ==> len(buf) == 0 || buf[0] < 48 || buf[0] > 57 [C09.dec.id.takes.all.digits]
 //@   ensures err == nil ==> len(header.Namespace) >= 1 [C09.dec.namespace.nonempty]
+//@   ensures err == nil ==> header.Type == old(data[0]) - 48 [C09.dec.type.digit]
+//@   ensures err == nil ==> arr(buf) == arr(old(data)) && off(buf) + len(buf) == off(old(data)) + len(old(data)) [C09.dec.payload.is.the.unaltered.suffix]
+//@   ensures err == nil && header.Type != 2 && header.Type != 5 ==> eventName == "" [C09.dec.eventname.only.for.events]
+//@   ensures err == nil ==> forall k int :: 0 <= k && k < len(header.Namespace) ==> header.Namespace[k] != 44 [C09.dec.namespace.stops.at.comma]
 //@   ensures maxmake() <= max(old(maxmake()), len(data) + 2) [C10.hdr.alloc]
 //@   ensures err == nil ==> header != nil && header.Attachments >= 0 [C10.hdr.att]
 //@   ensures err == nil && header.Type != 5 && header.Type != 6 ==> header.Attachments == 0 [C10.hdr.att.nonbinary]
